@@ -522,6 +522,12 @@ func (c *Compiler) compileDefine(
 	if symbol.Constant {
 		return c.errorf(node, "assignment to constant variable %q", ident)
 	}
+	if exists && symbol.Scope != ScopeLocal {
+		// the name is known in this scope but is not one of its local
+		// variables (a global, a captured variable): a destructuring
+		// definition assigns to it, its index is not a local index.
+		return c.compileAssign(node, symbol, ident)
+	}
 	if c.iotaVal > -1 && ident == "iota" && keyword == token.Const {
 		return c.error(node, plainError("assignment to iota"))
 	}
